@@ -7,6 +7,7 @@ from .. import lasdoc as ld
 
 ID = "C05"
 MODULE = "LasioProofs.Props.C05"
+EXTRA_MODULES = ["LasioProofs.Props.C05File"]
 RULE = ("documents assembled from ~V first + a random permutation of ~W, ~C, ~P, ~O and up to 3 custom sections (titles starting with a letter "
         "other than V/W/C/P/O/A), ~A anywhere after ~V; 7 title spellings per standard section (letter only, full word, trailing text, lower case, "
         "upper case); empty sections; blank / '#' lines at first/last/only position; LF or CRLF; with/without final newline; VERS 1.2/2.0 in 5 "
@@ -443,6 +444,6 @@ LEVEL_TEXT = ("Machine-checked Lean 4 theorems about an executable model of the 
               "body, kind and routing key depend only on the upper-cased title letter, steering comes only from ~V and ~W sections, and a "
               "permutation of sections with distinct keys gives the same section map. Tie: differential comparison of the compiled model with "
               "lasio.read(ignore_data=True) and the property's oracle (tags, permutation, planted steering mnemonics) on the real code incl. data.")
-LEVEL_NOTE = ("The data rows are not part of this model (oracle on the real code only; data-path model belongs to C02/C07). Indented titles are "
+LEVEL_NOTE = ("WHOLE FILE (Props/C05File.lean): C05_file_plant / C05_file_plant_named — an item named VERS / WRAP / DLM / NULL (any case) inserted into a header-item section in which that mnemonic does not steer (NULL outside ~W, VERS/WRAP/DLM outside ~V; ~Curves excluded because an extra declared curve changes the assignment) leaves the steering values, the curves of every data window and every other section unchanged and adds exactly its own item to that section; tightness: NULL in ~W and WRAP in ~V do steer; C05_file_curves_excluded. The data rows are not part of this model (oracle on the real code only; data-path model belongs to C02/C07). Indented titles are "
               "modelled faithfully (the ~Other loop does not strip) but are outside the property's quantifier. VERS values the model cannot "
               "classify exactly (comma, exponent, > 15 digits) are answered 'unmodelled' and not compared.")
